@@ -124,3 +124,15 @@ pub(crate) fn mk_headers(id: StreamId, eos: bool, informational: bool) -> crate:
     }
     f
 }
+
+// ---------------------------------------------------------------- payloads
+
+static BACKING: [u8; 256] = [0; 256];
+
+/// A `Bytes` whose `len()` is `n` (any usize) for code that never reads payload contents: the streams
+/// receive path only calls `len()` / `is_empty()` and moves the value around.
+/// The pointer is valid for 256 bytes; harnesses must not pass the value to code that reads it.
+pub(crate) fn len_only_bytes(n: usize) -> Bytes {
+    // SAFETY (harness only): see above; nothing dereferences beyond `BACKING`.
+    Bytes::from_static(unsafe { std::slice::from_raw_parts(BACKING.as_ptr(), n) })
+}
